@@ -100,6 +100,15 @@ def add_name_clashes(rng, pkg: pg.Pkg) -> None:
         pkg.inits.setdefault(tuple(home), []).append(pg.Reexport("modalias", deep.qname, None, None, "rel"))
         if len(home) > 1:
             pkg.inits.setdefault(tuple(home), []).append(pg.Reexport("name", wide.qname, f"wide_fn{n}", None, "abs"))
+        # a function (and a class) of a private module re-exported under an alias that is also the name of a public sibling
+        # module with content of its own: <pkg>/<alias>.sdsstub (the declaration) next to <pkg>/<alias>/<alias>.sdsstub (the module)
+        if rng.random() < 0.6:
+            src = pg.Mod(home, f"_aliassrc{n}", decls=[pg.Fn(f"made{n}"), pg.Cls(f"Made{n}", methods=[pg.Fn("go", role="inst")])])
+            sib = pg.Mod(home, f"shape{n}", decls=[pg.Fn(f"own_of_shape{n}"), pg.Cls(f"OwnOfShape{n}", methods=[pg.Fn("go", role="inst")])])
+            sib2 = pg.Mod(home, f"Form{n}", decls=[pg.Fn(f"own_of_form{n}")])
+            pkg.modules += [src, sib, sib2]
+            pkg.inits.setdefault(tuple(home), []).append(pg.Reexport("name", src.qname, f"made{n}", f"shape{n}", "rel"))
+            pkg.inits.setdefault(tuple(home), []).append(pg.Reexport("name", src.qname, f"Made{n}", f"Form{n}", "rel"))
 
 
 def _module_reexport_names(pkg: pg.Pkg, package: str) -> set:
